@@ -179,7 +179,13 @@ func decodeBatchRecords(batch []byte, topic string, partition int32) ([]Record, 
 
 	recordsData := batch[recordBatchHeaderLen:]
 	reader := bytes.NewReader(recordsData)
-	records := make([]Record, 0, recordCount)
+	// recordCount is client-controlled: never pre-allocate more than the bytes can
+	// hold (a record takes at least 7 bytes).
+	capHint := int64(recordCount)
+	if maxRecords := int64(len(recordsData)/7 + 1); capHint > maxRecords {
+		capHint = maxRecords
+	}
+	records := make([]Record, 0, capHint)
 	for i := int32(0); i < recordCount; i++ {
 		record, err := decodeRecord(reader, baseOffset, firstTimestamp, topic, partition)
 		if err != nil {
@@ -197,6 +203,9 @@ func decodeRecord(reader *bytes.Reader, baseOffset int64, baseTimestamp int64, t
 	}
 	if length < 0 {
 		return Record{}, fmt.Errorf("invalid record length")
+	}
+	if length > int64(reader.Len()) {
+		return Record{}, fmt.Errorf("record length %d exceeds remaining batch bytes %d", length, reader.Len())
 	}
 
 	recordData := make([]byte, length)
@@ -242,6 +251,10 @@ func decodeRecord(reader *bytes.Reader, baseOffset int64, baseTimestamp int64, t
 		return Record{}, err
 	}
 
+	// every header takes at least 2 bytes
+	if headerCount < 0 || headerCount > int64(buf.Len()) {
+		return Record{}, fmt.Errorf("invalid header count %d", headerCount)
+	}
 	headers := make([]Header, 0, headerCount)
 	for i := int64(0); i < headerCount; i++ {
 		keyLen, err := readVarint(buf)
@@ -280,6 +293,9 @@ func readNullableBytes(reader *bytes.Reader, length int64) ([]byte, error) {
 	}
 	if length == 0 {
 		return []byte{}, nil
+	}
+	if length > int64(reader.Len()) {
+		return nil, io.ErrUnexpectedEOF
 	}
 	out := make([]byte, length)
 	if _, err := io.ReadFull(reader, out); err != nil {
@@ -345,6 +361,9 @@ func parseIndex(data []byte) ([]IndexEntry, error) {
 	var reserved uint16
 	if err := binary.Read(reader, binary.BigEndian, &reserved); err != nil {
 		return nil, err
+	}
+	if count < 0 || int64(count)*12 > int64(reader.Len()) {
+		return nil, fmt.Errorf("invalid index entry count %d", count)
 	}
 	entries := make([]IndexEntry, count)
 	for i := int32(0); i < count; i++ {
